@@ -173,7 +173,7 @@ def extract_block(fdef, c, seg):
 # discharge
 # ------------------------------------------------------------------------------------------------
 RLIMIT = int(os.environ.get("PYVC_RLIMIT", "40000000"))
-TIMEOUT_MS = int(os.environ.get("PYVC_TIMEOUT_MS", "90000"))
+TIMEOUT_MS = int(os.environ.get("PYVC_TIMEOUT_MS", "30000"))
 
 
 def to_smt2(hyps, goal, axioms):
@@ -203,7 +203,7 @@ def solve_smt2(args):
         p = subprocess.run([sys.executable, "-c",
                             "import json,sys; from vlib.pyvc import api; "
                             "print('\\nRESULT ' + json.dumps(api._solve_inproc(tuple(json.load(open(sys.argv[1]))))))", fn],
-                           capture_output=True, text=True, timeout=tmo / 1000.0 + 90, env=env)
+                           capture_output=True, text=True, timeout=tmo / 1000.0 + 45, env=env)
         line = [l for l in p.stdout.splitlines() if l.startswith("RESULT ")]
         if line:
             return json.loads(line[-1][7:])
@@ -211,7 +211,7 @@ def solve_smt2(args):
                 "reason": f"solver child failed (exit {p.returncode}): {p.stderr.strip()[-200:]}"}
     except subprocess.TimeoutExpired:
         return {"status": "unknown", "backend": None, "time_s": round(time.time() - t0, 3), "model": None,
-                "reason": f"hard timeout: solver child killed after {int(tmo / 1000 + 90)} s"}
+                "reason": f"hard timeout: solver child killed after {int(tmo / 1000 + 45)} s"}
     finally:
         if fn:
             try:
@@ -269,7 +269,7 @@ def _solve_inproc(args):
         out["reason"] = f"z3 python api: {ex}"
     if out["status"] == "unknown" and tmo >= TIMEOUT_MS:
         # other back ends on the dumped query; only `unsat` is taken from them
-        for label, cmd in (("cvc5-1.0.3", ["/usr/bin/cvc5", "--strings-exp", "--tlimit=20000"]),
+        for label, cmd in (("cvc5-1.0.3", ["/usr/bin/cvc5", "--strings-exp", "--tlimit=15000"]),
                            ("z3-4.8.12", ["/usr/bin/z3", "-T:10"])):
             try:
                 with tempfile.NamedTemporaryFile("w", suffix=".smt2", delete=False) as f:
